@@ -17,7 +17,7 @@ from simkit.compare import EPS32, digest, max_abs_diff
 from simkit.sched import GRANULARITIES, POLICIES, Sim, SimDeadlock, seed_uuid
 
 PROPERTY = "C10"
-BUDGET = {"quick": {"runs": 640, "timeout": 150.0}, "thorough": {"runs": 16000, "timeout": 300.0}}
+BUDGET = {"quick": {"runs": 400, "timeout": 150.0}, "thorough": {"runs": 16000, "timeout": 300.0}}
 LEVEL = "exploration"
 
 REDUCTIONS = {"average", "average_split", "fsc", "group_average", "group_average_split"}
